@@ -194,6 +194,6 @@ def run(ctx):
     # s4C18.rule_chrrange is NOT registered:  # pending finding  (FINDING_C18_1: the range guard of the 'c' format lets every value >= 2**21 through)
     return [r_int, pC18.rule_chr(ctx, accepted), pC18.rule_dbl(ctx), pC18.rule_call(ctx), r_i5, pC18.rule_fmtfn(ctx),
             pC18.rule_trn(ctx), pC18.rule_conv(ctx), pC18.rule_key(ctx), fmtascii.rule_ascii(ctx, floor=0),
-            sC18.rule_memo(ctx), sC18.rule_strnone(ctx),
+            sC18.rule_memo(ctx), sC18.rule_strnone(ctx), s4C18.rule_chrrange(ctx),
             s4C18.rule_digits(ctx, fmt_chars), s4C18.rule_layout(ctx), s4C18.rule_chrpad(ctx), s4C18.rule_joinc(ctx), s4C18.rule_chelp(ctx),
             sC18.rule_fold(ctx), sC18.rule_emit(ctx), sC18.rule_convsel(ctx), sC18.rule_arity(ctx), sC18.rule_merge(ctx), sC18.rule_joinpy(ctx), sC18.rule_types(ctx), sC18.rule_strsel(ctx)]
